@@ -118,6 +118,19 @@ def work(task):
     spec = make_spec(task)
     RA = engine.Runner(spec)
     RB = engine.Runner(spec, interp_kwargs={'ignore_contract': True})
+    # ... and with contracts that are not even Python: under ignore_contract=True their text is dead
+    import copy as _copy
+    bad = _copy.deepcopy(spec)
+    for o in bad['states'] + bad['transitions']:
+        for kind in KINDS:
+            if o.get(kind):
+                o[kind] = ['1 +* (' for _ in o[kind]]
+    try:
+        RBX = engine.Runner(bad, interp_kwargs={'ignore_contract': True})
+        RBX.new_interpreter()
+        rbx_error = None
+    except Exception as e:
+        RBX, rbx_error = None, '%s: %s' % (type(e).__name__, str(e)[:80])
     diffs = []
     extra = collections.Counter()
 
@@ -144,6 +157,14 @@ def work(task):
         if bf != b or nbf != 0:
             d('ignored-but-failing', 'ignore_contract=True with unsatisfied conditions: %r (evaluations %d)'
               % (bf if bf != b else 'same run', nbf))
+        if RBX is None:
+            d('ignored-but-invalid', 'ignore_contract=True, contracts that do not compile: %s' % rbx_error)
+        else:
+            bx, _ = run_on(RBX, hist, ex.op)
+            extra['comparisons'] += 1
+            if bx != b:
+                d('ignored-but-invalid', 'ignore_contract=True, contracts that do not compile: %r instead of %r'
+                  % (bx[:3], b[:3]))
     res = engine.explore(spec, task[3], [], runner=RA, on_exec=on_exec)
     res['violations'] = [v for v in res['violations'] if v['category'] == 'crash']
     res['found'] = diffs
